@@ -12,6 +12,7 @@
    All theorems quantify over all well-formed databases, all clocks and all byte strings. *)
 Require Import Base.Bytes Base.GoInt Base.Reply Mem.Types Mem.Inv Mem.Strings Mem.Lists Mem.Exec.
 Require Import Mem.TtlProofs.
+Require Import Mem.Server Mem.ServerProofs.
 From Coq Require Import Permutation.
 Local Open Scope Z_scope.
 
@@ -312,6 +313,42 @@ Theorem C06_wf_invariant : forall p d, db_wf d -> db_wf (snd (run d p)).
 Proof. exact run_wf. Qed.
 Print Assumptions C06_wf_invariant.
 
+(* ------------------------------------------------------------------ C06_deadlines_are_per_database *)
+(* Server level (Mem/Server.v: databases [sdbs], per-connection selection).  A command issued by a
+   connection that has database i selected changes no deadline, no value and no visibility in any
+   database j <> i (and SELECT changes none at all): database j is literally the same afterwards,
+   so every key has the deadline it had and is visible at exactly the clocks it was.  Deadlines
+   belong to (database, key), never to the key name alone. *)
+Theorem C06_deadlines_are_per_database : forall s conn now nowms args hint j dj,
+  j <> sel_lookup conn (ssel s) \/ is_select args = true ->
+  nth_error (sdbs s) j = Some dj ->
+  let s' := snd (srv_exec s conn now nowms args hint) in
+  nth_error (sdbs s') j = Some dj /\
+  forall dj', nth_error (sdbs s') j = Some dj' ->
+    (forall k, db_ttl dj' k = db_ttl dj k) /\ (forall t k, view dj' t k = view dj t k).
+Proof.
+  intros s conn now nowms args hint j dj H G. cbv zeta.
+  rewrite (other_db_untouched s conn now nowms args hint j H). split; [exact G|].
+  intros dj' G'. rewrite G in G'. injection G' as <-. split; reflexivity.
+Qed.
+Print Assumptions C06_deadlines_are_per_database.
+
+(* Over interleaved programs of any number of connections: the deadlines (and everything else)
+   of database j after the program are those produced by the commands addressed to j alone --
+   issued while their connection had j selected -- run on database j by themselves; the lifecycle
+   theorems above then say what each of them does.  In particular a database nobody addressed is
+   unchanged, whatever happened to the same key names elsewhere. *)
+Theorem C06_deadlines_follow_own_database : forall p j s dj,
+  nth_error (sdbs s) j = Some dj ->
+  nth_error (sdbs (snd (srv_run s p))) j = Some (snd (db_run dj (map fst (addressed j s p)))) /\
+  (addressed j s p = [] -> nth_error (sdbs (snd (srv_run s p))) j = Some dj).
+Proof.
+  intros p j s dj G. split.
+  - exact (proj1 (one_keyspace_per_index p j s dj G)).
+  - apply unaddressed_db_unchanged. exact G.
+Qed.
+Print Assumptions C06_deadlines_follow_own_database.
+
 (* ------------------------------------------------------------------ non-vacuity *)
 Definition st (now : Z) (args : list bytes) : step := mkStep now (now * 1000) args RNil.
 
@@ -409,4 +446,20 @@ Example ex_sets_streams :
   = [RInt 2; RInt 1; rOK; RBulk (B "5-1"); RInt 1; RInt 1;
      RInt 1; RInt (-1); RInt 2; RNilArr;
      RInt 0; RInt 0; RArr []; RArr []; RInt 1; RInt (-1); RBulk (B "n"); RInt 0].
+Proof. vm_compute. reflexivity. Qed.
+
+(* the same key name in three databases: SET k EX 100 in db0; plain SET k in db1 (must not drop
+   db0's deadline); RPUSH k + EXPIRE k 1 in db2 (must not shorten db0's); at clock 102 db2's key is
+   gone, db0's still has 98 s, db1's has no deadline *)
+Definition sv (conn now : Z) (args : list bytes) : sstep := mkSStep conn now (now * 1000) args RNil.
+Example ex_per_database :
+  fst (srv_run (srv_init 3)
+    [sv 1 100 [B "SELECT"; B "1"]; sv 2 100 [B "SELECT"; B "2"];
+     sv 0 100 [B "SET"; B "k"; B "v"; B "EX"; B "100"]; sv 1 100 [B "SET"; B "k"; B "w"];
+     sv 2 100 [B "RPUSH"; B "k"; B "x"]; sv 2 100 [B "EXPIRE"; B "k"; B "1"];
+     sv 0 100 [B "TTL"; B "k"]; sv 1 100 [B "TTL"; B "k"]; sv 2 100 [B "TTL"; B "k"];
+     sv 2 102 [B "EXISTS"; B "k"]; sv 0 102 [B "TTL"; B "k"]; sv 0 102 [B "GET"; B "k"];
+     sv 1 102 [B "TTL"; B "k"]; sv 1 102 [B "DEL"; B "k"]; sv 0 102 [B "TTL"; B "k"]])
+  = [rOK; rOK; rOK; rOK; RInt 1; RInt 1; RInt 100; RInt (-1); RInt 1;
+     RInt 0; RInt 98; RBulk (B "v"); RInt (-1); RInt 1; RInt 98].
 Proof. vm_compute. reflexivity. Qed.
